@@ -360,6 +360,23 @@ def namedCoercer : String → Option (Val → Option DVal)
     | .str "y" => some (.bool true)
     | .str "n" => some (.bool false)
     | _ => none
+  -- one per remaining constructor (Int64, Int32, Float64 / Float, Float32, Time): a custom coercer REPLACES
+  -- the constructor's own (range-checking) adapter and must hand over the destination type itself
+  | "len64" => some fun v => match v with
+    | .str s => some (.int .i64 s.utf8ByteSize)
+    | _ => none
+  | "len32" => some fun v => match v with
+    | .str s => some (.int .i32 s.utf8ByteSize)
+    | _ => none
+  | "const25" => some fun v => match v with
+    | .str _ => some (.flt .f64 (.fin 5 (-1)))
+    | _ => none
+  | "const25f" => some fun v => match v with
+    | .str _ => some (.flt .f32 (.fin 5 (-1)))
+    | _ => none
+  | "epoch1" => some fun v => match v with
+    | .str _ => some (.time 86400000000000 true)
+    | _ => none
   | _ => none
 
 /-- named slice coercers -/
